@@ -1,6 +1,7 @@
 import Driver.Util
 import Driver.Suites.Blocks
 import Driver.Suites.Loop
+import Driver.Suites.Race
 import Driver.Suites.Request
 import Driver.Suites.Readpath
 import Driver.Suites.WQ
@@ -33,6 +34,7 @@ import Driver.Suites.Policy
 import Driver.Suites.InfoDL
 import Driver.Suites.Magnet
 import Driver.Suites.Adopt
+import Driver.Suites.Picker
 /-! Table of suites known to the driver.  One line per suite (merge=union friendly). -/
 namespace Driver
 def registry : List Suite := [
@@ -43,6 +45,7 @@ def registry : List Suite := [
   Suites.Loop.mkSuite "private",
   Suites.Loop.mkSuite "crashpoints",
   Suites.Loop.mkSuite "serve",
+  Suites.Race.suite,
   Suites.Request.suite,
   Suites.Readpath.suite,
   Suites.WQ.suite,
@@ -78,5 +81,6 @@ def registry : List Suite := [
   Suites.InfoDL.suite,
   Suites.Magnet.suite,
   Suites.Adopt.suite,
+  Suites.Picker.suite,
 ]
 end Driver
